@@ -36,7 +36,7 @@ def tree_wire(t):
     """wire form of a block tree for the Lean model of the tail transformations (Model/Tail.lean)"""
     def block(b):
         stmts, tail = b
-        return "B(" + ";".join(["E"] * len(stmts) + ["E" if tail[0] == "expr" else tree_wire(tail)]) + ")"
+        return "B(" + ";".join(["E"] * len(stmts) + ["E" if tail[0] == "expr" else "T(E;H(E))" if tail[0] == "handle" else tree_wire(tail)]) + ")"
     if t[0] == "ifb":
         return "I(%s;%s)" % (block(t[2]), block(t[3]))
     if t[0] == "matchb":
@@ -314,7 +314,7 @@ class Gen:
             i = self.fresh("e")
             body, _ = self.block(env + [(i, ELEM[src[1]], False)], r.randint(1, 2), in_fun, depth - 1)
             return ("forin", i, src[0], body), env
-        if k < 0.86:
+        if k < 0.83:
             if r.random() < 0.4:
                 # a nullable variable declared WITHOUT a value, read through a default before and after its first assignment
                 # (truthy values only: see the known finding about `?` on falsy values)
@@ -331,7 +331,9 @@ class Gen:
             name = self.fresh("d")
             ty = r.choice([INT, INT, STR])
             self.no_tern += 1
+            self.handle_tail_ok = not in_fun
             tree = self.block_tree(ty, env, 2, top=True)
+            self.handle_tail_ok = False
             self.no_tern -= 1
             return ("blockdef", name, ty, tree), env + [(name, ty, False)]
         objs = [v for v in env if v[1] in self.classes and not self.classes[v[1]]["exc"]]
@@ -352,7 +354,14 @@ class Gen:
                 if not stmts:
                     stmts = [("print", self.lit(STR))]
             else:
-                tail = ("expr", self.expr(ty, env, 1))
+                rs = [f for f, d in self.funcs.items() if d["raises"] and d["ret"] == INT]
+                if ty == INT and rs and getattr(self, "handle_tail_ok", False) and r.random() < 0.7:
+                    # the tail is a handled call: the value of the attempt OR of the arm is what the definition binds
+                    f = r.choice(rs)
+                    d = self.funcs[f]
+                    tail = ("handle", f, [self.expr(t, env, 1) for _, t, _ in d["params"]], d["raises"][0], self.expr(INT, env, 0))
+                else:
+                    tail = ("expr", self.expr(ty, env, 1))
             return (stmts, tail)
         if top or r.random() < 0.6:
             return ("ifb", self.expr(BOOL, env, 1), block(), block())
@@ -635,6 +644,10 @@ class Printer:
                 self.stmt(st, n)
             if tail[0] == "expr":
                 L.append("    " * n + self.e(tail[1]))
+            elif tail[0] == "handle":
+                _, f, args, exc, alt = tail
+                L.append("%s%s(%s) handle" % ("    " * n, f, ", ".join(self.e(a) for a in args)))
+                L.append("%s    err: %s => %s" % ("    " * n, exc, self.e(alt)))
             else:
                 self.tree(tail, n, "    " * n)
         if t[0] == "ifb":
@@ -829,6 +842,14 @@ class Interp:
             stmts, tail = b
             for st in stmts:
                 self.stmt(st, env)
+            if tail[0] == "handle":
+                _, f, args, exc, alt = tail
+                try:
+                    return self.callf(f, [self.e(a, env) for a in args])
+                except Raised as r:
+                    if self.is_a(r.cls, exc):
+                        return self.e(alt, env)
+                    raise
             return self.e(tail[1], env) if tail[0] == "expr" else self.tree(tail, env)
         if t[0] == "ifb":
             return block(t[2]) if self.e(t[1], env) else block(t[3])
